@@ -24,7 +24,7 @@ RESULTS = ROOT + "/results.jsonl"
 TARGET = ROOT + "/target"
 
 OPS = [
-    (r"<=", "<"), (r">=", ">"), (r"(?<![<=>!-])<(?![<=])", "<="), (r"(?<![<=>!-])>(?![>=])", ">="),
+    (r" <= ", " < "), (r" >= ", " > "), (r" < ", " <= "), (r" > ", " >= "),      # with blanks: comparison operators, not generics
     (r"==", "!="), (r"!=", "=="), (r"&&", "||"), (r"\|\|", "&&"),
     (r"\btrue\b", "false"), (r"\bfalse\b", "true"),
     (r"\+ 1\b", "+ 0"), (r"- 1\b", "- 0"), (r"\b0\b", "1"), (r"\b1\b", "2"),
